@@ -96,8 +96,10 @@ Section Table.
   Definition t_unset (t : table) (b k : N) : res table :=
     do h <- h_unset W (t_retrieve t k) b; Ok (t_with_cache t k h).
 
-  (* commit(block_number): per cache entry, first the history row, then the latest row;
-     afterwards the cache is dropped. *)
+  (* commit(block_number): per cache entry two separate writes: a history that is kept is
+     written before the latest row, a history that is dropped (is_old) is deleted after it;
+     afterwards the cache is dropped.  (The order only matters for crashes: Proofs/TableP,
+     crash_in_commit_recovers.) *)
   Definition commit_entry (b : N) (dc : kv V * kv hist) (e : N * hist) : res (kv V * kv hist) :=
     let '(d, c) := dc in
     let '(k, h) := e in
